@@ -7,7 +7,14 @@ use serde_json::json;
 use vh::{analysis::Analysis, exec, oracles_run, report::Tally, spec};
 
 fn main() {
-    let args: Vec<String> = std::env::args().skip(1).collect();
+    let mut args: Vec<String> = std::env::args().skip(1).collect();
+    if args.is_empty() {
+        // arguments handed over through the environment (see `check`): the process's own command line
+        // stays empty
+        if let Ok(v) = std::env::var("VH_ARGS") {
+            args = v.split('\u{1f}').map(str::to_owned).collect();
+        }
+    }
     let mut kv: HashMap<String, String> = HashMap::new();
     let mut it = args.iter();
     let engine = it.next().cloned().unwrap_or_else(|| usage());
@@ -240,6 +247,19 @@ fn vstream(profile: &str, seed: u64, start: u64, count: u64, verbose: bool, tall
                         for (i, f) in feats.iter_mut().enumerate() {
                             if pathless && i % 2 == 0 {
                                 f.path = None;
+                            }
+                        }
+                        // twin features: same name, no path (one JSON feature object), same layout
+                        // (same lines), the first one's scenario names ending with the second one's
+                        if idx % 7 == 3 {
+                            if let Some(mut twin) = feats.first().cloned() {
+                                let first = &mut feats[0];
+                                first.path = None;
+                                for sc in first.scenarios.iter_mut().chain(first.rules.iter_mut().flat_map(|r| r.scenarios.iter_mut())) {
+                                    sc.name = format!("admin {}", sc.name);
+                                }
+                                twin.path = None;
+                                feats.insert(1, twin);
                             }
                         }
                     })
